@@ -3,27 +3,28 @@ C09 — Desync detection: only confirmed frames are ever reported.
 
 Proved: a checksum is reported (sent to peers and remembered locally) only for a frame at or
 below the sync layer's last confirmed frame — whose state is final — and nothing at all happens
-while the next report frame is not yet confirmed. The absence of false alarms over whole runs
-and the detection of real divergence are decided on traces (monitor C09, families desync/glitch).
+while the next report frame is not yet confirmed. `C09_reports_are_replay` (Proofs/Checksums.lean):
+for every run of a rollback-mode session next to a deterministic game whose saves hand over the
+checksum of the saved state, the checksum a report carries is the checksum of the serial replay of
+the session's own timeline up to the reported, confirmed frame — a function of the inputs alone,
+which is what makes two peers' reports for a frame equal. The comparison across peers (no
+DesyncDetected over whole runs) and the detection of a real divergence are decided on traces
+(monitor C09, families desync/glitch).
 -/
 import GgrsModel.Model.Inventory
 import GgrsModel.Model.P2P
 import GgrsModel.Proofs.Monad
+import GgrsModel.Proofs.Checksums
 
 namespace Ggrs.P2P
-
-def nextReportFrame (s : P2P) (interval : Nat) : Frame :=
-  if s.lastSentChecksumFrame == NULL_FRAME then (interval : Int) else s.lastSentChecksumFrame + (interval : Int)
 
 /-- While the next report frame is above the last confirmed frame, `check_checksum_send_interval`
 changes nothing: no report leaves, nothing is stored for comparison. -/
 theorem C09_no_report_before_confirmation (s : P2P) (now interval : Nat)
     (hd : s.desync = some interval) (hlate : ¬ s.nextReportFrame interval ≤ s.sync.lastConfirmedFrame) :
     s.checkChecksumSendInterval now = .ok s := by
-  unfold checkChecksumSendInterval
-  simp only [hd]
-  unfold nextReportFrame at hlate
-  simp only [hlate, if_false, pure, Except.pure]
+  unfold checkChecksumSendInterval checksumCellToReport
+  simp only [hd, hlate, if_false, pure, Except.pure, bind, Except.bind]
 
 /-- Desync detection switched off: nothing is ever reported. -/
 theorem C09_off (s : P2P) (now : Nat) (hd : s.desync = none) :
@@ -33,3 +34,62 @@ theorem C09_off (s : P2P) (now : Nat) (hd : s.desync = none) :
   · unfold compareLocalChecksumsAgainstPeers; simp [hd]
 
 end Ggrs.P2P
+
+namespace Ggrs
+
+/-- **C09, what is reported (rollback mode, sparse saving or not, no disconnected players, delay
+changes allowed).** Run ANY interleaving of remote-input arrivals, delay changes, checksum reports and
+comparisons, and `advance_frame` calls whose requests a deterministic game executes, its saves
+handing over `csf` of the saved state. Then whenever a report is due, the cell it is taken from
+holds a frame `f` with `next report frame ≤ f ≤ last confirmed frame`, and the checksum reported
+(and remembered for the comparison with the peers' reports) is `csf` of the serial replay of the
+game's timeline up to `f` — rows which `C01_timeline_partial` shows to be the real inputs, final
+for a confirmed frame. -/
+theorem C09_reports_are_replay {G : Type} (step : G → List (Input × InputStatus) → G) (g0 : G) (csf : G → Option Nat)
+    (a b : P2P × GS G) (h0 : CInv2 step g0 csf a) (hrun : CWStar step csf a b) (interval : Nat) (cell : Cell)
+    (hc : b.1.checksumCellToReport interval = .ok (some cell)) :
+    0 ≤ cell.frame ∧ cell.frame ≤ b.1.sync.lastConfirmedFrame ∧ b.1.nextReportFrame interval ≤ cell.frame ∧
+    cell.checksum = csf (replay step g0 b.2.R cell.frame.toNat) := by
+  obtain ⟨hd, hck⟩ := CInv2_run step g0 csf a b h0 hrun
+  exact reported_is_replay step g0 csf b.1 b.2 ⟨hd.1, hck⟩ interval cell hc
+
+/-- What `check_checksum_send_interval` does with that cell (every state): the report
+`(cell.frame, checksum)` goes to every remote endpoint and into the local history. -/
+theorem C09_report_sent (s s' : P2P) (now interval : Nat) (cell : Cell) (cs : Nat) (hd : s.desync = some interval)
+    (hc : s.checksumCellToReport interval = .ok (some cell)) (hcs : cell.checksum = some cs)
+    (h : s.checkChecksumSendInterval now = .ok s') :
+    s'.lastSentChecksumFrame = cell.frame ∧
+    s'.remotes = s.remotes.map (fun p => (p.1, p.2.sendChecksumReport now cell.frame cs)) ∧
+    (alookup cell.frame (ainsert cell.frame cs s.localChecksumHistory) = some cs) := by
+  unfold P2P.checkChecksumSendInterval at h
+  simp only [hd, hc, hcs, bind, Except.bind] at h
+  have := pure_ok h
+  subst this
+  exact ⟨rfl, rfl, alookup_ainsert_self' _ _ _⟩
+
+end Ggrs
+
+namespace Ggrs
+
+/-- The hypotheses of `C09_reports_are_replay` are met by a freshly built session next to a game at
+its initial state with empty cells. -/
+example {G : Type} (step : G → List (Input × InputStatus) → G) (g0 : G) (csf : G → Option Nat) (s : P2P)
+    (R : Nat → List (Input × InputStatus)) (cellG : Nat → G) (n : Nat)
+    (hq : s.sync.queues = List.replicate n InputQueue.new) (hst : s.localConnectStatus = List.replicate n {})
+    (hc : s.sync.currentFrame = 0) (hls : s.sync.lastSavedFrame = NULL_FRAME)
+    (hcells : s.sync.cells = List.replicate (s.maxPrediction + 1) {}) (ho : s.outgoingLocalInputs = []) :
+    CInv2 step g0 csf (s, ⟨0, R, g0, cellG, fun _ => NULL_FRAME⟩) := by
+  refine ⟨⟨WInv_init step g0 s R cellG n hq hst hc hls hcells, _, SessInv_init s R n hq hst hc,
+    GlueInv_init s _ n (fun _ => rfl) ho hst (by rw [hq]; simp)⟩, ?_⟩
+  intro i hi h0
+  exfalso
+  have hlen : s.sync.cells.length = s.maxPrediction + 1 := by rw [hcells]; simp
+  have : (rget s.sync.cells i).frame = NULL_FRAME := by
+    rw [hcells]
+    rw [hlen] at hi
+    simp [rget, List.getD_eq_getElem?_getD, hi]
+  have h0' : 0 ≤ (rget s.sync.cells i).frame := h0
+  rw [this] at h0'
+  simp [NULL_FRAME] at h0'
+
+end Ggrs
